@@ -768,7 +768,7 @@ fn conc_props(tier: &str, seed: u64, out: &str) {
     for (k, v) in per_fl {
         extra.insert(format!("schedules.{k}"), format!("{v}"));
     }
-    extra.insert("scenarios".into(), format!("up to {} per flavour (every pair of the 8 two-node mutators, every mutator against every reader (10 directed / 6 undirected), x initial states{})", nscen, if quick { "" } else { "; plus 3-thread and 2-calls-per-thread scenarios" }));
+    extra.insert("scenarios".into(), format!("up to {} per flavour (every pair of the 8 two-node mutators, every mutator against every reader (14 directed / 9 undirected, traversals included), x initial states{})", nscen, if quick { "" } else { "; plus 3-thread and 2-calls-per-thread scenarios" }));
     ctx.counters.insert("cases".into(), total as u64);
     write_outputs(out, &ctxs, extra);
 }
